@@ -8,7 +8,8 @@ import Iauthd.Util.Bytes
 namespace Iauthd.Proto
 open Iauthd
 
-def b (s : String) : Bytes := Bytes.ofString s
+/-- ASCII literal as bytes (defined through `String.toList` so that it reduces in proofs) -/
+def b (s : String) : Bytes := s.toList.map fun c => UInt8.ofNat c.toNat
 
 /-- bytes of a C string argument: everything before the first NUL -/
 abbrev cstr := Bytes.cstr
